@@ -290,7 +290,9 @@ func concWorker(t *testing.T, shard, n int) {
 			res.Evals += r.Execs
 			res.Counters[sc.Name+"|executions"] += r.Execs
 			res.Counters[fmt.Sprintf("%s|executions_bound_%d", sc.Name, b)] += r.Execs
-			if shard == 0 { res.Counters[sc.Name+"|sequential_reference_outcomes"] = int64(len(adm)) }
+			if shard == 0 {
+				res.Counters[sc.Name+"|sequential_reference_outcomes"] = int64(len(adm))
+			}
 			for o := range r.Outcomes {
 				classes["conc|"+sc.Name+"|"+o] = true
 			}
